@@ -48,6 +48,9 @@ CHECKS = {
     'C18': dict(
         technique='static analysis: zero-count item enumerations with positive controls, callee allow/deny lists on resolved MIR calls, receiver/who-writes facts, RNG dataflow for the ephemeral key, compile-time Send+Sync+Freeze witnesses over all suites decided by rustc',
         text='Static analysis: no statics with state, thread-locals, interior mutability, or user unsafe anywhere in the crate; no ambient-state callee; export takes &self and writes nothing, all context writers take &mut self; the ephemeral key is derived from bytes drawn from the caller\'s RNG in the same call; Send+Sync+Freeze of every public type for all AEAD x KDF x KEM combinations is decided by the type checker on a generated witness crate (with a non-vacuity twin). Data-race freedom and order independence then follow from Rust\'s guarantees for safe code; dependency crates are assumed free of hidden global state.'),
+    'C12': dict(
+        technique='static analysis: type-level size table against RFC 9180 Table 2/5, guard-dominance on MIR for every from_bytes/write_exact impl, decision tables of the two length helpers',
+        text='Static analysis: RFC sizes Npk/Nsk/Nenc/Ndh/Nt at type level for every Serializable impl; every from_bytes starts with the exact-length guard (expected = Self::OutputSize, given = len) dominating all other uses of the input, or delegates the whole input; every write_exact has a mechanism that panics exactly on a length mismatch before any partial write; helper decision tables; NIST keys are encoded uncompressed. The round-trip/canonicity clause (from_bytes(to_bytes(x)) == x) is numerical inside the dependency encoders and is not decided.'),
     'C14': dict(
         technique='static analysis: pass-through proof on MIR provenance terms (argument i -> parameter j, error identity, result identity), writer-sequence recognition for the allocating forms',
         text='Static analysis proving each single_shot_* body is exactly setup_* followed by one context-method call on the fresh context with its own parameters in order, errors and results unchanged, and that seal/open wrap the in-place forms (copy, in-place call on buf[..len], tag at [len..len+Nt) / split at len-Nt). Equivalence with the composed calls then holds for all inputs given the composed functions are functions of their arguments (C18).'),
